@@ -181,7 +181,7 @@ pub enum PlutusDataEnum {
 }
 
 #[wasm_bindgen]
-#[derive(Clone, Debug, Ord, PartialOrd)]
+#[derive(Clone, Debug)]
 pub struct PlutusData {
     pub(crate) datum: PlutusDataEnum,
     // We should always preserve the original datums when deserialized as this is NOT canonicized
@@ -202,6 +202,27 @@ impl Hash for PlutusData {
 }
 
 impl std::cmp::Eq for PlutusData {}
+
+// A datum is identified on chain by the hash of its bytes: two datums with the same value are the same
+// element of a witness set exactly when they are written with the same bytes (the preserved original
+// bytes, or the canonical encoding when there are none).
+impl Ord for PlutusData {
+    fn cmp(&self, other: &Self) -> std::cmp::Ordering {
+        self.datum.cmp(&other.datum).then_with(|| {
+            if self.original_bytes == other.original_bytes {
+                std::cmp::Ordering::Equal
+            } else {
+                self.to_bytes().cmp(&other.to_bytes())
+            }
+        })
+    }
+}
+
+impl PartialOrd for PlutusData {
+    fn partial_cmp(&self, other: &Self) -> Option<std::cmp::Ordering> {
+        Some(self.cmp(other))
+    }
+}
 
 to_from_bytes!(PlutusData);
 
